@@ -8,7 +8,8 @@ Oracle   stdout parsed into blocks ('Info with history at path', 'Child History 
          the blocks must name exactly the histories at or below the root, each exactly once, each listing exactly
          the generations and creation dates that the independent reader finds in the manifests, ascending.
          -sf: exactly one line per (generation, format, digest, action) recorded for that path in the nearest
-         enclosing history, in generation order.  Exit 30 without history (both forms).
+         enclosing history, in generation order.  Exit 30 without history (both forms), also for a
+         folder above all histories.  Two or three -sf options in one call print one such block per file, in order.
 """
 import posixpath
 import re
@@ -27,7 +28,7 @@ RULE = (
 )
 ASSUMPTIONS = ["names contain no line breaks (control characters are outside the domain)"]
 BUDGET = {"quick": (220, 4), "thorough": (32000, 16)}
-REQUIRED = ["nested", "multi_action_file", "no_history", "sf_noroot", "sf_root", "sf_relative", "deep_nesting", "renamed_file", "bulk_history", "symlinked_file"]
+REQUIRED = ["nested", "multi_action_file", "no_history", "sf_noroot", "sf_root", "sf_relative", "deep_nesting", "renamed_file", "bulk_history", "symlinked_file", "sf_multi_noroot", "sf_multi_root", "no_own_history_but_below"]
 
 CFG = {
     "kinds": ["create"] * 6 + ["create_sf"] * 2 + ["put_new", "overwrite", "overwrite", "restore"],
@@ -185,6 +186,14 @@ def run_case(scn, ctx):
             for h in want:
                 require(got[h] == want[h], "info-generations", "history %s: info lists %r, manifests say %r" % (h, got[h], want[h]), res)
                 require([n for n, _ in got[h]] == sorted(n for n, _ in got[h]), "info-order", "generations not ascending: %r" % got[h], res)
+        # a folder that has no history of its own and lies in none - although histories exist below it - has no history
+        import os as _os
+        cand = [""] + sorted(d for d in w.dirs if w.deepest_root(d, roots) is None)
+        for d in cand:
+            if d == "" or (_os.path.isdir(w.abs(d)) and any(w.under(r, d) for r in roots)):
+                res = w.info(d) if d else w.run("info", [w.base])
+                require(res.exit_code == 30 and res.exc is None, "no-history", "info on %r, which has no history of its own (histories below: %s): %s" % (d or "<parent of the root>", [r for r in roots if d == "" or w.under(r, d)][:3], res.brief()), res)
+                feats.add("no_own_history_but_below")
         # per file
         recorded = {}
         for h in roots:
@@ -235,6 +244,37 @@ def run_case(scn, ctx):
                 feats.add("multi_action_file")
             if any(rec["previous"] for hh in roots for n_, p_, d_ in docs[hh] for rec in d_["records"] if hh == h and rec["path"] == relp):
                 feats.add("renamed_file")
+        # several -sf options in one call (with and without the root argument): one block per named file
+        by_hist = {}
+        for (h, relp), lines in sorted(recorded.items()):
+            if h + "/" + relp in w.files and w.deepest_root(h + "/" + relp, roots) == h:
+                by_hist.setdefault(h, []).append((relp, lines))
+        for h, items in sorted(by_hist.items())[:3]:
+            if len(items) < 2:
+                continue
+            pick = [items[0], items[-1]] + ([items[len(items) // 2]] if len(items) >= 3 else [])
+            for form in ("noroot", "root"):
+                res = w.info(None if form == "noroot" else h, sf=[h + "/" + relp for relp, _ in pick])
+                require(res.exc is None and res.exit_code == 0, "sf-exit", res.brief(), res)
+                out = res.stdout.split("\n")
+                require(out[0] == "Info with history at path: " + w.abs(h), "sf-history", "first line %r, nearest history %r" % (out[:1], w.abs(h)), res)
+                got, order, cur = {}, [], None
+                for l in out[1:]:
+                    if l == "":
+                        continue
+                    m = SF_RE.match(l)
+                    if m and cur is not None:
+                        got[cur].append((int(m.group(1)), m.group(2), m.group(3), m.group(4), m.group(5)))
+                    elif l.endswith(":"):
+                        cur = l[:-1]
+                        order.append(cur)
+                        got.setdefault(cur, [])
+                    else:
+                        require(False, "sf-format", "unexpected line %r" % l[:200], res)
+                require(order == [relp for relp, _ in pick], "sf-path", "info with %d -sf options prints blocks %r, expected %r" % (len(pick), order, [r_ for r_, _ in pick]), res)
+                for relp, lines in pick:
+                    require(sorted(got[relp]) == sorted(lines), "sf-lines", "info -sf (one of %d) %r prints %r, manifests hold %r" % (len(pick), relp, got[relp], lines), res)
+                feats.add("sf_multi_" + form)
         for f in feats:
             ctx.event(f)
         ctx.mark_nontrivial("nested" in feats or "multi_action_file" in feats)
